@@ -207,28 +207,58 @@ fn log(l: i64) {
 const CLEANUP: i64 = 500;
 
 /// the futures of the async leaves, in creation order; `None` once completed
-static FUTURES: Mutex<Vec<Option<futures::channel::oneshot::Sender<()>>>> = Mutex::new(Vec::new());
+static FUTURES: Mutex<Vec<(i64, Option<futures::channel::oneshot::Sender<()>>)>> = Mutex::new(Vec::new());
 thread_local! {
     /// fresh mounts: async leaves resolve at once
     static FRESH: std::cell::Cell<bool> = const { std::cell::Cell::new(false) };
 }
-fn new_future() -> Option<futures::channel::oneshot::Receiver<()>> {
+fn new_future(label: i64) -> Option<futures::channel::oneshot::Receiver<()>> {
     if FRESH.with(|r| r.get()) {
         return None;
     }
     let (tx, rx) = futures::channel::oneshot::channel();
-    FUTURES.lock().unwrap().push(Some(tx));
+    FUTURES.lock().unwrap().push((label, Some(tx)));
     Some(rx)
 }
-/// complete the `k mod n`-th of the `n` outstanding futures (oldest first); false if none is left
-fn complete(k: i64) -> bool {
+/// `(l 0)`: the future of the latest run of closure `l` completes (if it is still outstanding);
+/// `(l 1)`: all outstanding futures of earlier runs of closure `l` complete (they were superseded)
+fn complete_of(label: i64, stale: bool) -> bool {
     let mut f = FUTURES.lock().unwrap();
-    let open: Vec<usize> = f.iter().enumerate().filter(|(_, t)| t.is_some()).map(|(i, _)| i).collect();
+    let Some(last) = f.iter().rposition(|t| t.0 == label) else { return false };
+    let mut txs = vec![];
+    if stale {
+        for i in 0..last {
+            if f[i].0 == label {
+                if let Some(tx) = f[i].1.take() {
+                    txs.push(tx);
+                }
+            }
+        }
+    } else if let Some(tx) = f[last].1.take() {
+        txs.push(tx);
+    }
+    drop(f);
+    let any = !txs.is_empty();
+    for tx in txs {
+        let _ = tx.send(());
+    }
+    any
+}
+/// complete the `k mod n`-th of the `n` outstanding futures (oldest first) created by the closure
+/// `label` (`None`: by any closure); false if none is left
+fn complete(label: Option<i64>, k: i64) -> bool {
+    let mut f = FUTURES.lock().unwrap();
+    let open: Vec<usize> = f
+        .iter()
+        .enumerate()
+        .filter(|(_, t)| t.1.is_some() && label.map(|l| l == t.0).unwrap_or(true))
+        .map(|(i, _)| i)
+        .collect();
     if open.is_empty() {
         return false;
     }
     let i = open[k.rem_euclid(open.len() as i64) as usize];
-    let tx = f[i].take().unwrap();
+    let tx = f[i].1.take().unwrap();
     drop(f);
     let _ = tx.send(());
     true
@@ -284,7 +314,7 @@ fn mk(v: &V, s: &Sigs) -> AnyView {
             (move || {
                 log(l);
                 let a = eval(&es, &s);
-                let rx = new_future();
+                let rx = new_future(l);
                 let (ea, s) = (ea.clone(), s.clone());
                 Suspend::new(async move {
                     if let Some(rx) = rx {
@@ -478,8 +508,8 @@ pub fn run(c: &Sexp) -> Sexp {
             }
         }
         exec::run_all(&step.at(1).nums());
-        for k in step.at(2).nums() {
-            if complete(k) {
+        for k in step.at(2).list() {
+            if complete_of(k.at(0).num(), k.at(1).num() != 0) {
                 exec::run_all(&[]);
             }
         }
@@ -489,13 +519,23 @@ pub fn run(c: &Sexp) -> Sexp {
     }
     if ext {
         let newest_first = c.at(3).at(0).num() != 0;
-        while complete(if newest_first { -1 } else { 0 }) {
+        while complete(None, if newest_first { -1 } else { 0 }) {
             exec::run_all(&[]);
         }
         let (s, _) = top(&root, &prev, true);
         out.push((take_log(), s, values(&sigs)));
     }
 
+    if c.list().len() > 4 {
+        // reduced observation (compared with the model): what is on screen at every idle point
+        drop(state);
+        owner.cleanup();
+        drop(owner);
+        exec::reset();
+        LOG.lock().unwrap().clear();
+        FUTURES.lock().unwrap().clear();
+        return Lst(out.iter().map(|(_, shot, _)| strip_status(shot)).collect());
+    }
     // fresh mounts with the values of each idle point (after the run, so that the executor's
     // task numbering of the run is not disturbed)
     let plain = |s: &Sexp| strip_status(s);
